@@ -133,3 +133,32 @@ def admitted(conds, paths, domain, resolve=None):
         if ok:
             out.add(vals)
     return out, rel
+
+
+def reachable_under(func, env, is_target, resolve=None):
+    """Can control reach a CFG element satisfying is_target when every branch whose condition can be evaluated under env
+    (access path -> int) goes the way env dictates?  Branches that cannot be evaluated are taken both ways."""
+    seen = set()
+    stack = [func.entry]
+    while stack:
+        b = stack.pop()
+        if b in seen:
+            continue
+        seen.add(b)
+        blk = func.blocks[b]
+        for e in blk.el:
+            if is_target(e):
+                return True
+        if blk.noreturn:
+            continue
+        succ = [(i, s) for i, s in enumerate(blk.succs) if s is not None]
+        val = None
+        if blk.cond is not None and len(succ) >= 2 and all(func.edge_kind(b, i) in (True, False) for i, _ in succ):
+            try:
+                val = bool(evaluate(blk.cond, env, resolve=resolve))
+            except (NotPure, ValueError, ZeroDivisionError):
+                val = None
+        for i, s in succ:
+            if val is None or func.edge_kind(b, i) == val:
+                stack.append(s)
+    return False
